@@ -333,6 +333,27 @@ def part_c(ck, tier, rng):
                         os.kill(p, signal.SIGKILL)
                     except OSError:
                         pass
+            # a call that fails AFTER the worker exists (remote configuration step) must leave the worker within reach of
+            # terminate(): chdir into a directory that cannot be created / a nice value that is not a number
+            for bad in ("popen//chdir=/proc/nonexistent/evh05", "popen//nice=notanumber"):
+                b0 = set(children_of(os.getpid()))
+                try:
+                    group.makegateway(bad)
+                    ck.fail("makegateway-bad-config-accepted", {"spec": bad})
+                except Exception:  # noqa
+                    pass
+                started = set(children_of(os.getpid())) - b0
+                group.terminate(timeout=2)
+                time.sleep(0.3)
+                left = sorted(p for p in started if pid_alive(p))
+                ck.case(("badconfig", rd, bad), nontrivial=True)
+                if left:
+                    ck.fail("failed-makegateway-leaves-a-process-behind", {"spec": bad, "children_left_after_terminate": left})
+                    for p in left:
+                        try:
+                            os.kill(p, signal.SIGKILL)
+                        except OSError:
+                            pass
             # a spec whose interpreter does not exist fails before any process exists
             try:
                 group.makegateway("popen//python=/nonexistent/python3")
